@@ -59,6 +59,8 @@ func init() {
 	bitsStubs()
 	bytesStubs()
 	miscStubs()
+	hashStubs()
+	containerStubs()
 }
 
 func (in *Interp) constStr(v Value, what string) string {
@@ -556,3 +558,121 @@ func (in *Interp) errorsIs(fr *frame, err, target IfaceV, depth int) bool {
 }
 
 var _ = big.NewInt
+
+// ---------- reflect.Value (IsNil idiom), bytes.Buffer, maps.Clone ----------
+
+func containerStubs() {
+	stubs["reflect.ValueOf"] = func(in *Interp, fr *frame, fn *ssa.Function, a []Value) Value {
+		iv, ok := a[0].(IfaceV)
+		if !ok {
+			return in.notEncodable("reflect.ValueOf on %T", a[0])
+		}
+		return &NativeV{Kind: "reflect.Value", Type: iv.T, Data: iv.V}
+	}
+	rv := func(in *Interp, v Value) *NativeV {
+		nv, ok := v.(*NativeV)
+		if !ok || nv.Kind != "reflect.Value" {
+			panic(&abort{abNotEncodable, "reflect.Value method on a value that did not come from reflect.ValueOf"})
+		}
+		return nv
+	}
+	stubs["(reflect.Value).IsValid"] = func(in *Interp, fr *frame, fn *ssa.Function, a []Value) Value {
+		return in.P.Bool(rv(in, a[0]).Type != nil)
+	}
+	stubs["(reflect.Value).Kind"] = func(in *Interp, fr *frame, fn *ssa.Function, a []Value) Value {
+		nv := rv(in, a[0])
+		if nv.Type == nil {
+			return in.P.Const(64, 0)
+		}
+		return in.P.Const(64, uint64(reflectKind(nv.Type)))
+	}
+	stubs["(reflect.Value).IsNil"] = func(in *Interp, fr *frame, fn *ssa.Function, a []Value) Value {
+		nv := rv(in, a[0])
+		if nv.Type == nil {
+			in.goPanicf(fr, "reflect: call of reflect.Value.IsNil on zero Value")
+		}
+		switch reflectKind(nv.Type) {
+		case 18, 19, 20, 21, 22, 23, 26: // chan func interface map pointer slice unsafe.Pointer
+			return in.P.Bool(isNilValue(nv.Data))
+		}
+		in.goPanicf(fr, "reflect: call of reflect.Value.IsNil on %s Value", nv.Type)
+		return nil
+	}
+
+	// bytes.Buffer: fields buf []byte (0), off int (1). Only the append/read-all subset; the
+	// real implementation manages capacity by reslicing, which the slice model refuses.
+	bufOf := func(in *Interp, fr *frame, recv Value) StructV {
+		ptr, ok := recv.(PtrV)
+		if !ok || ptr.Sym != nil {
+			panic(&abort{abNotEncodable, "bytes.Buffer method on an unsupported receiver"})
+		}
+		if ptr.P == nil {
+			in.goPanicf(fr, "runtime error: invalid memory address or nil pointer dereference (bytes.Buffer)")
+		}
+		st, ok := (*ptr.P).(StructV)
+		if !ok || len(st) < 2 {
+			panic(&abort{abNotEncodable, "bytes.Buffer has an unexpected layout"})
+		}
+		return st
+	}
+	bufAppend := func(in *Interp, st StructV, data []*Term) {
+		old, _ := st[0].(SliceV)
+		e := make([]Value, 0, len(old.E)+len(data))
+		e = append(e, old.E...)
+		for _, d := range data {
+			e = append(e, d)
+		}
+		st[0] = SliceV{E: e}
+	}
+	bufOff := func(in *Interp, st StructV) int { return in.constInt(st[1], "bytes.Buffer offset") }
+	stubs["(*bytes.Buffer).Write"] = func(in *Interp, fr *frame, fn *ssa.Function, a []Value) Value {
+		st := bufOf(in, fr, a[0])
+		data := in.sliceTerms(a[1], "bytes.Buffer.Write")
+		bufAppend(in, st, data)
+		return TupleV{in.P.Const(64, uint64(len(data))), IfaceV{}}
+	}
+	stubs["(*bytes.Buffer).WriteString"] = stubs["(*bytes.Buffer).Write"]
+	stubs["(*bytes.Buffer).WriteByte"] = func(in *Interp, fr *frame, fn *ssa.Function, a []Value) Value {
+		bufAppend(in, bufOf(in, fr, a[0]), []*Term{a[1].(*Term)})
+		return IfaceV{}
+	}
+	stubs["(*bytes.Buffer).Bytes"] = func(in *Interp, fr *frame, fn *ssa.Function, a []Value) Value {
+		st := bufOf(in, fr, a[0])
+		b, _ := st[0].(SliceV)
+		off := bufOff(in, st)
+		if b.E == nil {
+			return SliceV{}
+		}
+		return SliceV{E: b.E[off:len(b.E):len(b.E)]}
+	}
+	stubs["(*bytes.Buffer).Len"] = func(in *Interp, fr *frame, fn *ssa.Function, a []Value) Value {
+		st := bufOf(in, fr, a[0])
+		b, _ := st[0].(SliceV)
+		return in.P.Const(64, uint64(len(b.E)-bufOff(in, st)))
+	}
+	stubs["(*bytes.Buffer).Reset"] = func(in *Interp, fr *frame, fn *ssa.Function, a []Value) Value {
+		st := bufOf(in, fr, a[0])
+		st[0] = SliceV{E: []Value{}}
+		st[1] = in.P.Const(64, 0)
+		return nil
+	}
+	stubs["(*bytes.Buffer).String"] = func(in *Interp, fr *frame, fn *ssa.Function, a []Value) Value {
+		ptr, _ := a[0].(PtrV)
+		if ptr.P == nil {
+			return StrV{S: "<nil>"}
+		}
+		st := bufOf(in, fr, a[0])
+		b, _ := st[0].(SliceV)
+		return mkStr(in.sliceTerms(SliceV{E: b.E[bufOff(in, st):]}, "bytes.Buffer.String"))
+	}
+	stubs["maps.Clone"] = func(in *Interp, fr *frame, fn *ssa.Function, a []Value) Value {
+		m, ok := a[0].(*MapV)
+		if !ok {
+			return in.notEncodable("maps.Clone on %T", a[0])
+		}
+		if m == nil {
+			return (*MapV)(nil)
+		}
+		return m.clone()
+	}
+}
